@@ -33,7 +33,7 @@ ASSUMPTIONS = [
     "percentile / N-d mask / put / fillna results are not in the statement's lists: not asserted",
 ]
 MANDATORY = ["cls:DimArray", "cls:Dataset", "cls:Axis", "name:public", "name:underscore", "name:member", "name:dimension", "name:ctor-param",
-             "prop:keeps", "prop:drops", "prop:axis-attrs", "attrs:ctor-param-key"]
+             "prop:keeps", "prop:drops", "prop:axis-attrs", "prop:second-call-after-metadata-change", "attrs:ctor-param-key"]
 
 VALUES = ["text", 3, 2.5, [1, 2], {"k": [1]}, None]
 PUBLIC = ["units", "long_name", "my_meta", "x0", "History"]
@@ -239,11 +239,26 @@ def run_prop(case):
     if set(attrs) & {"dtype", "copy", "labels", "dims", "name", "tol"}:
         cl.add("attrs:ctor-param-key")
     only = case.get("only")
-    for name, rule, axdims, fn in ops.CATALOGUE:
+    # two passes over the catalogue: the second one after the operands' metadata was changed in place (a result carries the metadata the
+    # operand has NOW, whatever an earlier call on the same operand returned)
+    passes = [(name, rule, axdims, fn, 0) for name, rule, axdims, fn in ops.CATALOGUE] + [(name, rule, axdims, fn, 1) for name, rule, axdims, fn in ops.CATALOGUE if rule == "keeps"]
+    for name, rule, axdims, fn, phase in passes:
         if rule is None or (only is not None and only != name):
             continue
+        if phase == 1 and "changed_later_" not in attrs:
+            attrs = dict(attrs, changed_later_=[7])
+            for k_ in list(attrs)[:1]:
+                if k_ != "changed_later_":
+                    del attrs[k_]
+            for x in (a, ctx.f):
+                x.attrs.clear()
+                x.attrs.update(_copy.deepcopy(attrs))
+            axattrs = dict(axattrs, ax_changed_later_="yes")
+            for ax in a.axes:
+                ax.attrs["ax_changed_later_"] = "yes"
+            cl.add("prop:second-call-after-metadata-change")
         sig = {"op": name, "rule": rule}
-        what = "%s [%s] attrs=%s" % (name, rule, core.jsonable(attrs))
+        what = "%s [%s] attrs=%s%s" % (name, rule, core.jsonable(attrs), " [second call, after the operand's metadata was changed in place]" if phase else "")
         try:
             import contextlib
             with np.errstate(all="ignore"), contextlib.redirect_stdout(core._DEVNULL):
@@ -280,7 +295,7 @@ def run_prop(case):
         except Violation as v:
             v.case = dict(case, only=name)
             raise
-        sub.append((core.digest([case["a"], attrs, name]), True))
+        sub.append((core.digest([case["a"], attrs, name, phase]), True))
     return {"classes": sorted(cl), "sub": sub}
 
 
